@@ -49,6 +49,28 @@ def splitW [Zero K] (d : K) (a b : String) (s : Split K) : K :=
 def distSpec [Add K] [Zero K] (d : K) (a b : String) (t : PTree K) : K :=
   sumBy (splitW d a b) (splits t)
 
+/-! ### weighted unrooted topology among a set of tips
+
+A *bipartition predicate* `φ` on `T` is a Boolean property of a side that only depends on the
+bipartition of `T` the side induces: it cannot tell a side from another one with the same
+members of `T` (`congr`), nor from its complement within `T` (`compl`), and it rejects the
+trivial bipartition (`empty`).  Examples: `sep a b` for `a b ∈ T` ("separates a from b") and
+`sepAll T A` for a proper `A` ("is the bipartition A | T∖A").  `topoWeight d φ t` adds up the
+lengths of the edges of `t` whose bipartition satisfies `φ`.  Two trees have the same weighted
+unrooted topology among `T` when all these sums agree: with `sep a b` this is the path
+length between `a` and `b`, with `sepAll T A` it is the (merged) weight of the bipartition
+`A | T∖A` — zero/absent when the tree has no such edge. -/
+structure BipPred (T : List String) (φ : List String → Bool) : Prop where
+  congr : ∀ A B : List String, (∀ x ∈ T, (x ∈ A ↔ x ∈ B)) → φ A = φ B
+  compl : ∀ A B : List String, (∀ x ∈ T, (x ∈ A ↔ ¬ x ∈ B)) → φ A = φ B
+  empty : φ [] = false
+
+def phiW [Zero K] (d : K) (φ : List String → Bool) (s : Split K) : K :=
+  if φ s.side then lenOr d s.len else 0
+
+def topoWeight [Add K] [Zero K] (d : K) (φ : List String → Bool) (t : PTree K) : K :=
+  sumBy (phiW d φ) (splits t)
+
 /-- two sides describe the same bipartition of `T` -/
 def bipEquiv (T : List String) (A B : List String) : Prop :=
   ∀ a ∈ T, ∀ b ∈ T, sep a b A = sep a b B
